@@ -1,8 +1,9 @@
 ----------------------------- MODULE Kex_Trace -----------------------------
 (* code -> spec for C06.  One record = one real session between two paramiko       *)
 (* Transports (harness/drivers/kex.py: run_kex): the first exchange under a        *)
-(* plaintext man in the middle that altered at most one field, then honest         *)
-(* re-exchanges.  Per exchange the driver logs, from Transport._set_K_H /          *)
+(* plaintext man in the middle, then re-exchanges; in exchange number alter_at      *)
+(* (0 = first) at most one field of the server's reply was altered (in flight for   *)
+(* the first exchange, at the server end for re-exchanges).  Per exchange the driver logs, from Transport._set_K_H /          *)
 (* _verify_key / _activate_outbound / _parse_newkeys on BOTH peers:                 *)
 (*   kc, ks, hc, hs, sidc, sids   K, H, session_id of client / server, interned     *)
 (*                                (equal integers <=> equal byte values, 0 = unset) *)
@@ -30,7 +31,7 @@ TNext ==
     /\ l <= NX /\ l' = l + 1 /\ tid' = tid
     /\ LET x  == R.exchanges[l]
            x0 == R.exchanges[1]
-           isAltered == R.applied /\ l = 1
+           isAltered == R.applied /\ l = R.alter_at + 1
            accepted  == x.c_newkeys_out \/ x.c_done \/ (l = NX /\ R.client_active)
        IN  /\ bad' = Clause(AgreeP(x.c_done, x.kc, x.ks, x.hc, x.hs, TRUE), "P_secret_or_hash_differs")
                      \cup Clause(AgreeP(x.c_done, 0, 0, 0, 0, x.sigok), "P_signature_does_not_verify_under_shown_key")
@@ -45,6 +46,7 @@ TNext ==
            /\ cst' = IF x.c_done THEN "done" ELSE IF x.c_set THEN "aborted" ELSE "init_sent"
            /\ sst' = IF x.s_set THEN "replied" ELSE "idle"
            /\ cK' = x.kc /\ cH' = x.hc /\ cSid' = x.sidc /\ cShown' = x.shown /\ cSig' = x.sigok
+           /\ cHostKey' = IF x.c_verified THEN x.shown ELSE cHostKey
            /\ sK' = x.ks /\ sH' = x.hs /\ sSid' = x.sids
            /\ altered' = (IF isAltered THEN {R.alter} ELSE {}) /\ attacked' = R.applied
            /\ first' = <<x0.hc, x0.hs>>
